@@ -26,7 +26,7 @@ type c01Case struct {
 
 func init() { registerReplay("c01", checkC01) }
 
-var routeNames = []string{"constructors", "template+fill", "sml-parser", "hsms-decoder"}
+var routeNames = []string{"constructors", "template+fill", "sml-parser", "hsms-decoder", "encoded-then-readdressed", "decoded-then-readdressed"}
 
 func smlHeader(h Hdr) model.SMLHeader {
 	return model.SMLHeader{Name: h.Name, Stream: h.Stream, Function: h.Function, Wait: h.Wait, Dir: h.Dir}
@@ -65,6 +65,21 @@ func buildByRoute(c c01Case) (msg *ast.DataMessage, excluded string) {
 			m = msgs[0]
 		}
 		return completeMessage(m, h, fill, c.Order), ""
+	case 4, 5:
+		// the message exists (and has been encoded, or came out of the decoder) under other addressing data and is
+		// then re-addressed with the session id / system bytes of the case: a history, not a fresh construction
+		other := ast.NewHSMSDataMessage(h.Name, h.Stream, h.Function, h.Wait, h.Dir, buildItemOrEmpty(c.Tree, c.Variant), (h.Session+1)%65536, []byte{byte(c.Mask), byte(c.Mask >> 8), 0x5A, ^h.System[3]})
+		enc := other.ToBytes()
+		if c.Route == 5 {
+			dec, ok := hsms.Parse(enc)
+			dm, isData := dec.(*ast.DataMessage)
+			if !ok || !isData {
+				return nil, ""
+			}
+			other = dm
+			_ = other.ToBytes()
+		}
+		return other.SetSessionIDAndSystemBytes(h.Session, h.System), ""
 	case 3:
 		first := ast.NewHSMSDataMessage(h.Name, h.Stream, h.Function, h.Wait, h.Dir, buildItemOrEmpty(c.Tree, c.Variant), h.Session, h.System)
 		dec, ok := hsms.Parse(first.ToBytes())
@@ -82,7 +97,7 @@ func buildByRoute(c c01Case) (msg *ast.DataMessage, excluded string) {
 
 func checkC01(c c01Case) (ci caseInfo, err error) {
 	sh := shapeOf(c.Tree)
-	ci.label("route:" + routeNames[c.Route%4])
+	ci.label("route:" + routeNames[c.Route%6])
 	msg, excluded := buildByRoute(c)
 	if excluded != "" {
 		stats.exclude(excluded)
@@ -90,7 +105,7 @@ func checkC01(c c01Case) (ci caseInfo, err error) {
 		return ci, nil
 	}
 	if msg == nil {
-		return ci, fmt.Errorf("route %s: decoding the encoding of the constructed message failed (first leg of decode-again)", routeNames[c.Route%4])
+		return ci, fmt.Errorf("route %s: decoding the encoding of the constructed message failed (first leg of decode-again)", routeNames[c.Route%6])
 	}
 	ci.Nontrivial = sh.Elems >= 1 && (len(sh.Kinds) >= 2 || sh.MaxLenBytes >= 2 || sh.Depth >= 2)
 	ci.label("lenbytes=%d", sh.MaxLenBytes)
@@ -110,7 +125,7 @@ func checkC01(c c01Case) (ci caseInfo, err error) {
 	h := c.Hdr
 	b := msg.ToBytes()
 	if len(b) == 0 {
-		return ci, fmt.Errorf("complete message %q (route %s) encodes to nothing", msg.Header(), routeNames[c.Route%4])
+		return ci, fmt.Errorf("complete message %q (route %s) encodes to nothing", msg.Header(), routeNames[c.Route%6])
 	}
 	dec, ok := hsms.Parse(b)
 	if !ok {
@@ -146,7 +161,7 @@ func genC01(t *rapid.T) c01Case {
 	c := c01Case{
 		Hdr:     genHdr(t, true),
 		Variant: rapid.IntRange(0, 11).Draw(t, "variant"),
-		Route:   rapid.SampledFrom([]int{0, 0, 1, 1, 2, 3}).Draw(t, "route"),
+		Route:   rapid.SampledFrom([]int{0, 0, 1, 1, 2, 3, 4, 5}).Draw(t, "route"),
 		Mask:    rapid.Uint64().Draw(t, "mask"),
 		Order:   rapid.IntRange(0, 5).Draw(t, "order"),
 	}
